@@ -143,7 +143,7 @@ def discharge(ob, tier="quick", default_timeout=60):
         results.append(("ring", "unsat", ob.time, "unsat"))
     if tier == "thorough":
         with ThreadPoolExecutor(len(solvers)) as ex:
-            results = list(ex.map(lambda s: _run_one(s, path, timeout), solvers))
+            results = results + list(ex.map(lambda s: _run_one(s, path, timeout), solvers))   # keep the ring verdict: the solvers re-check it, they do not replace it
     else:
         # first definitive answer wins; start all, poll
         procs = {}
